@@ -1,1 +1,5 @@
+import PymoodeProofs.C01
+import PymoodeProofs.C09
+import PymoodeProofs.C10
 import PymoodeProofs.C11
+import PymoodeProofs.C12
